@@ -8,7 +8,7 @@ import inspect
 import os
 from typing import Any, Callable, Dict, List, Tuple
 
-from lib.common import OblResult, DISCHARGED, REFUTED, ERROR, Failure, REPO
+from lib.common import OblResult, DISCHARGED, REFUTED, UNDECIDED, ERROR, Failure, REPO
 
 
 def _pkg_files() -> List[str]:
@@ -481,6 +481,111 @@ def s_string_tokens():
             return f'string_literal {"accepts" if r else "rejects"} {text!r}'
 
 
+class _NoLang(Exception):
+    pass
+
+
+def _pp_language(e, combined=False):
+    """z3 regular expression of the texts a (small) pyparsing token expression can match as a whole, for the element
+    kinds below; anything else: _NoLang (the obligation is then undecided, never violated)."""
+    import pyparsing as pp
+    import z3
+    sv = z3.StringVal
+    if isinstance(e, pp.Combine):
+        return _pp_language(e.expr, True)
+    if isinstance(e, pp.Word):
+        if getattr(e, 'minLen', 1) != 1 or getattr(e, 'maxLen', 0) not in (0, pp.core._MAX_INT) \
+                or (e.bodyChars != e.initChars) or getattr(e, 'notChars', None) or getattr(e, 'asKeyword', False):
+            raise _NoLang('Word with length bounds / body characters')
+        cs = sorted(e.initChars)
+        return z3.Plus(z3.Union(*[z3.Re(sv(c)) for c in cs]) if len(cs) > 1 else z3.Re(sv(cs[0])))
+    if isinstance(e, pp.CaselessLiteral):          # subclass of Literal: test first
+        parts = [z3.Union(z3.Re(sv(c.lower())), z3.Re(sv(c.upper()))) if c.lower() != c.upper() else z3.Re(sv(c))
+                 for c in e.match]
+        return parts[0] if len(parts) == 1 else z3.Concat(*parts)
+    if isinstance(e, pp.Literal):
+        return z3.Re(sv(e.match))
+    if isinstance(e, pp.Regex):
+        from . import regex as RX
+        try:
+            return RX.to_z3(e.pattern, e.flags)
+        except RX.Untranslatable as ex:
+            raise _NoLang(f'Regex {e.pattern!r}: {ex}')
+    if isinstance(e, (pp.Or, pp.MatchFirst)):
+        # as a *language* both are the union (MatchFirst may hide alternatives: an over-approximation, which is the
+        # safe direction for "every matched text is converted without error")
+        ls = [_pp_language(x, combined) for x in e.exprs]
+        return ls[0] if len(ls) == 1 else z3.Union(*ls)
+    if isinstance(e, pp.And):
+        if not combined:
+            raise _NoLang('sequence outside Combine (whitespace may be skipped between the parts)')
+        ls = [_pp_language(x, combined) for x in e.exprs if type(x).__name__ != '_ErrorStop']
+        return ls[0] if len(ls) == 1 else z3.Concat(*ls)
+    if isinstance(e, pp.Opt):
+        return z3.Option(_pp_language(e.expr, combined))
+    if isinstance(e, pp.ZeroOrMore):
+        if getattr(e, 'not_ender', None) is not None:
+            raise _NoLang('repetition with stop_on')
+        return z3.Star(_pp_language(e.expr, combined))
+    if isinstance(e, pp.OneOrMore):
+        if getattr(e, 'not_ender', None) is not None:
+            raise _NoLang('repetition with stop_on')
+        return z3.Plus(_pp_language(e.expr, combined))
+    raise _NoLang(type(e).__name__)
+
+
+def s_number_token():
+    """Every text the live `number_literal` token can match is converted by its parse action without error: the
+    action computes float(t) when t contains '.', else int(t); so the token language (extracted from the pyparsing
+    element graph as a regular expression) must be included in  [+-]?digits  |  [+-]?(digits '.' digits* | '.' digits)
+    ([eE][+-]?digits)?  — inclusion decided by z3's regex solver for all texts.  A witness is replayed on the real
+    parser as a column default before anything is reported (C08: no ValueError escapes; C01: a number keeps its
+    literal kind)."""
+    import z3
+    import pydbml.definitions.generic as G
+    try:
+        lang = _pp_language(G.number_literal)
+    except _NoLang as ex:
+        return ('undecided', f'the number token is built from an element kind outside the translated subset: {ex}')
+    sv = z3.StringVal
+    digit = z3.Range(sv('0'), sv('9'))
+    digits = z3.Plus(digit)
+    sign = z3.Option(z3.Union(z3.Re(sv('+')), z3.Re(sv('-'))))
+    exp = z3.Option(z3.Concat(z3.Union(z3.Re(sv('e')), z3.Re(sv('E'))), sign, digits))
+    safe_int = z3.Concat(sign, digits)
+    safe_float = z3.Concat(sign, z3.Union(z3.Concat(digits, z3.Re(sv('.')), z3.Star(digit)),
+                                          z3.Concat(z3.Re(sv('.')), digits)), exp)
+    s = z3.String('t')
+    sol = z3.Solver()
+    sol.set('timeout', 20000)
+    sol.add(z3.InRe(s, lang), z3.Not(z3.InRe(s, z3.Union(safe_int, safe_float))))
+    r = sol.check()
+    if r == z3.unsat:
+        # not vacuous: the token language is not empty
+        chk = z3.Solver()
+        chk.add(z3.InRe(s, lang))
+        if chk.check() != z3.sat:
+            return 'the number token matches nothing'
+        return None
+    if r != z3.sat:
+        return ('undecided', 'solver: ' + sol.reason_unknown())
+    w = sol.model()[s].as_string()
+    # replay on the real parser
+    import pyparsing as pp
+    from pydbml import PyDBML
+    import pydbml.exceptions as X
+    doc = 'Table t {\n  c int [default: %s]\n}\n' % w
+    try:
+        PyDBML(doc)
+    except (pp.ParseBaseException, SyntaxError) as e:
+        return ('undecided', f'the token can match {w!r}, which int()/float() would refuse, but the parser refuses the document first')
+    except Exception as e:
+        if isinstance(e, tuple(v for v in vars(X).values() if isinstance(v, type) and issubclass(v, Exception))):
+            return ('undecided', f'the token can match {w!r}; the document is refused with {type(e).__name__}')
+        return f'the number token matches {w!r}; parsing {doc!r} escapes with {type(e).__name__}: {e}'
+    return ('undecided', f'the token can match {w!r} but the document parses')
+
+
 def _shape(e, depth=0, seen=None):
     """structural fingerprint of a pyparsing element graph (types, literals, results names, action names)"""
     import pyparsing as pp
@@ -578,6 +683,7 @@ CHECKS: List[Tuple[str, Tuple[str, ...], Callable[[], Any], str]] = [
     ('S.string-tokens', ('C07', 'C13'), s_string_tokens, 'string literal = one of three quoted forms (only the triple-quoted one spans lines, backslash escapes); names are words or double-quoted'),
     ('S.property-column-grammar', ('C15',), s_property_column_grammar, 'the column grammars with and without properties differ by exactly one added settings alternative'),
     ('S.whitespace', ('C07', 'C01'), s_default_whitespace, 'newline is not default whitespace'),
+    ('S.number-token', ('C08', 'C01'), s_number_token, 'every text the number token can match is converted by its action without error (token language, extracted from the live grammar as a regular expression, included in what int()/float() accept; z3 regex solver)'),
 ]
 
 
@@ -593,6 +699,11 @@ def run_static(prop: str) -> List[OblResult]:
         except Exception as e:      # the extraction itself failed: a checker problem unless the code changed shape
             import traceback
             msg = 'extraction failed: ' + traceback.format_exc()[-400:]
+        if isinstance(msg, tuple) and msg and msg[0] == 'undecided':
+            r.verdict = UNDECIDED
+            r.detail = msg[1]
+            out.append(r)
+            continue
         if msg:
             r.verdict = REFUTED
             r.detail = msg
